@@ -166,17 +166,40 @@ theorem impls_erase {S : Schema} (hu : (S.types.map (·.name)).Nodup) {F : Feats
 
 theorem Accepted.nodup {S : Schema} (h : Accepted S = true) : (S.types.map (·.name)).Nodup := by
   simp only [Accepted, Bool.and_eq_true, decide_eq_true_eq] at h
-  exact h.1.1.1.1
+  exact h.1.1.1.1.1
 
 theorem Accepted.typeOk {S : Schema} (h : Accepted S = true) {t : TypeDef} (ht : t ∈ S.types) :
     S.typeOk t = true := by
   simp only [Accepted, Bool.and_eq_true, List.all_eq_true] at h
-  exact h.1.1.1.2 t ht
+  exact h.1.1.1.1.2 t ht
 
 theorem Accepted.noIntrospectionNames {S : Schema} (h : Accepted S = true) {t : TypeDef} (ht : t ∈ S.types) :
     introspectionKind t.name = none := by
   simp only [Accepted, Bool.and_eq_true, List.all_eq_true] at h
-  simpa using h.1.1.2 t ht
+  simpa using h.1.1.1.2 t ht
+
+theorem Accepted.queryKind {S : Schema} (h : Accepted S = true) : S.kindOf S.query = some .object := by
+  simp only [Accepted, Bool.and_eq_true, beq_iff_eq] at h
+  exact h.1.1.2
+
+theorem Accepted.mutationKind {S : Schema} (h : Accepted S = true) {m : String} (hm : S.mutation = some m) :
+    S.kindOf m = some .object := by
+  simp only [Accepted, Bool.and_eq_true, beq_iff_eq, hm] at h
+  exact h.1.2
+
+theorem Accepted.subscriptionKind {S : Schema} (h : Accepted S = true) {m : String} (hm : S.subscription = some m) :
+    S.kindOf m = some .object := by
+  simp only [Accepted, Bool.and_eq_true, beq_iff_eq, hm] at h
+  exact h.2
+
+theorem visible_of_root {S : Schema} {F : Feats} {n : String} (hk : S.kindOf n = some .object) (hq : S.reqOf n = []) :
+    S.visible F n = true := by
+  unfold Schema.kindOf at hk
+  unfold Schema.reqOf at hq
+  unfold Schema.visible
+  cases h : S.find? n with
+  | none => simp [h] at hk
+  | some t => simp_all [reqOk]
 
 /-- A visible union's members are all visible (no conditional members). -/
 theorem union_members_visible {S : Schema} (hA : Accepted S = true) {F : Feats} {t : TypeDef}
@@ -585,29 +608,18 @@ theorem typeByName_closed {n p : String} (h : typeByName S F n = some p) : S.vis
     · simp [hr] at h
 
 theorem query_visible (hA : Accepted S = true) (hR : RootsUngated S = true) : S.visible F S.query = true := by
-  simp only [Accepted, Bool.and_eq_true, beq_iff_eq] at hA
   simp only [RootsUngated, Bool.and_eq_true, beq_iff_eq] at hR
-  have hk := hA.1.2
-  have hq := hR.1
-  unfold Schema.kindOf at hk
-  unfold Schema.reqOf at hq
-  unfold Schema.visible
-  cases h : S.find? S.query with
-  | none => simp [h] at hk
-  | some t => simp_all [reqOk]
+  exact visible_of_root (Accepted.queryKind hA) hR.1.1
 
 theorem mutation_visible (hA : Accepted S = true) (hR : RootsUngated S = true) {m : String}
     (hm : S.mutation = some m) : S.visible F m = true := by
-  simp only [Accepted, Bool.and_eq_true, beq_iff_eq, hm] at hA
   simp only [RootsUngated, Bool.and_eq_true, beq_iff_eq, hm] at hR
-  have hk := hA.2
-  have hq := hR.2
-  unfold Schema.kindOf at hk
-  unfold Schema.reqOf at hq
-  unfold Schema.visible
-  cases h : S.find? m with
-  | none => simp [h] at hk
-  | some t => simp_all [reqOk]
+  exact visible_of_root (Accepted.mutationKind hA hm) hR.1.2
+
+theorem subscription_visible (hA : Accepted S = true) (hR : RootsUngated S = true) {m : String}
+    (hm : S.subscription = some m) : S.visible F m = true := by
+  simp only [RootsUngated, Bool.and_eq_true, beq_iff_eq, hm] at hR
+  exact visible_of_root (Accepted.subscriptionKind hA hm) hR.2
 
 end closure
 
@@ -638,6 +650,13 @@ theorem erase_mutation {S : Schema} {F : Feats} (hA : Accepted S = true) (hR : R
   | none => simp
   | some m => simp [Option.filter, mutation_visible hA hR hm]
 
+theorem erase_subscription {S : Schema} {F : Feats} (hA : Accepted S = true) (hR : RootsUngated S = true) :
+    (erase S F).subscription = S.subscription := by
+  unfold erase
+  cases hm : S.subscription with
+  | none => simp
+  | some m => simp [Option.filter, subscription_visible hA hR hm]
+
 theorem evalHead_erase {S : Schema} {F : Feats} (hA : Accepted S = true) (hR : RootsUngated S = true)
     (tag arg : String) (k k' : Node → List (String × Json))
     (hk : ∀ n, NodeVis S F n → k n = k' n) (n : Node) (hn : NodeVis S F n) :
@@ -651,7 +670,7 @@ theorem evalHead_erase {S : Schema} {F : Feats} (hA : Accepted S = true) (hR : R
     | none => simp only [hs]
     | some p => simp only [hk _ (show NodeVis S F (.ty (.named p)) from typeByName_closed htb), hs]
   | schema =>
-    simp only [evalHead, view, typesListing_erase, erase_mutation hA hR]
+    simp only [evalHead, view, typesListing_erase, erase_mutation hA hR, erase_subscription hA hR]
     have h1 : (typesListing S F).map (fun p => Json.obj (k (.ty (.named p)))) =
         (typesListing S F).map (fun p => Json.obj (k' (.ty (.named p)))) :=
       List.map_congr_left (fun p hp => by rw [hk _ (show NodeVis S F (.ty (.named p)) from typesListing_closed hu p hp)])
@@ -659,9 +678,19 @@ theorem evalHead_erase {S : Schema} {F : Feats} (hA : Accepted S = true) (hR : R
       hk _ (show NodeVis S F (.ty (.named S.query)) from query_visible hA hR)
     have h3 : (erase S F).query = S.query := rfl
     rw [h1, h2, h3]
+    have hM : ∀ m, S.mutation = some m → k (.ty (.named m)) = k' (.ty (.named m)) :=
+      fun m hm => hk _ (show NodeVis S F (.ty (.named m)) from mutation_visible hA hR hm)
+    have hS : ∀ m, S.subscription = some m → k (.ty (.named m)) = k' (.ty (.named m)) :=
+      fun m hm => hk _ (show NodeVis S F (.ty (.named m)) from subscription_visible hA hR hm)
     cases hm : S.mutation with
-    | none => rfl
-    | some m => simp only [hk _ (show NodeVis S F (.ty (.named m)) from mutation_visible hA hR hm)]
+    | none =>
+      cases hs : S.subscription with
+      | none => rfl
+      | some s => simp only [hS s hs]
+    | some m =>
+      cases hs : S.subscription with
+      | none => simp only [hM m hm]
+      | some s => simp only [hM m hm, hS s hs]
   | ty t =>
     cases t with
     | named p =>
@@ -1150,10 +1179,9 @@ theorem typeOk_erase (hA : Accepted S = true) {t : TypeDef} (ht : t ∈ S.types)
 
 theorem accepted_erase (hA : Accepted S = true) (hR : RootsUngated S = true) : Accepted (erase S F) = true := by
   have hu := Accepted.nodup hA
-  have hA' := hA
-  simp only [Accepted, Bool.and_eq_true, List.all_eq_true, decide_eq_true_eq, beq_iff_eq] at hA' ⊢
   have hq : S.notHidden F S.query = true := notHidden_of_visible (query_visible hA hR)
-  refine ⟨⟨⟨⟨?_, ?_⟩, ?_⟩, ?_⟩, ?_⟩
+  simp only [Accepted, Bool.and_eq_true, List.all_eq_true, decide_eq_true_eq, beq_iff_eq]
+  refine ⟨⟨⟨⟨⟨?_, ?_⟩, ?_⟩, ?_⟩, ?_⟩, ?_⟩
   · have : (erase S F).types.map (·.name) = (S.types.filter (fun t => reqOk F t.req)).map (·.name) := by
       simp [erase, List.map_map, Function.comp_def, eraseType_name]
     rw [this]
@@ -1165,18 +1193,24 @@ theorem accepted_erase (hA : Accepted S = true) (hR : RootsUngated S = true) : A
   · intro t' ht'
     obtain ⟨t, ht, rfl⟩ := List.mem_map.mp ht'
     have := List.mem_filter.mp ht
-    rw [eraseType_name]
-    exact hA'.1.1.2 t this.1
+    rw [eraseType_name, Accepted.noIntrospectionNames hA this.1]
+    rfl
   · rw [show (erase S F).query = S.query from rfl, kindOf_erase hu hq]
-    exact hA'.1.2
+    exact Accepted.queryKind hA
   · rw [erase_mutation hA hR]
     cases hm : S.mutation with
     | none => trivial
     | some m =>
-      have := hA'.2
-      simp only [hm] at this ⊢
+      simp only
       rw [kindOf_erase hu (notHidden_of_visible (mutation_visible hA hR hm))]
-      exact this
+      simpa using Accepted.mutationKind hA hm
+  · rw [erase_subscription hA hR]
+    cases hm : S.subscription with
+    | none => trivial
+    | some m =>
+      simp only
+      rw [kindOf_erase hu (notHidden_of_visible (subscription_visible hA hR hm))]
+      simpa using Accepted.subscriptionKind hA hm
 
 end eraseAccepted
 
